@@ -10,7 +10,9 @@ T_R = "TLA+ lexer model (Lexer/LexerMC.tla) model-checked by TLC against ReadPro
 T_I = "TLA+ iterator model (IndexedRead.tla) model-checked by TLC against IndexProps.tla over every small file x order x topic set x window; TLC trace validation of the real reader on the enumerated file space, random large files and writer-produced files (TraceIndexed.tla); model replay against recorded reads (IndexedReplay.tla, drift)"
 T_L = "TLA+ layout generator (Layout.tla: TLC enumerates every spec-legal layout / insertion set and checks order-independence of the summary-pass model); layouts built by the reference encoder and read by the real readers; TLC trace validation (TraceWriter.tla layout judge + TraceIndexed.tla)"
 T_C = "TLA+ property layer (MCAPFormat.tla) judging the regenerated reference binaries and the Go write tool's outputs by TLC trace validation; reference encoder pinned by 416 LFS sha256 hashes; finite matrix enumerated completely"
+T_X = "shared TLA+ property layer (content model of TraceWriter.tla, IndexProps via TraceIndexed.tla) judging, by TLC trace validation, what the Python readers return for Go-written files and what every Go read path returns for Python-written files"
 CHECKS = [
+ ("C16", "model_checking", T_X, "6 C16", "Go writer (no compression, random configurations) -> Python NonSeekingReader and SeekingReader (CRC validation, 3 orders); Python Writer over its options -> Go lexer, scan, indexed reads in all orders, Info; one abstract content judged by TLC in both directions."),
  ("C11", "model_checking", T_L, "6 C11", "Every subset of 10 insertion positions x padding, enumerated by TLC from Layout.tla, built by the reference encoder for seeded contents and read by lexer, scan, indexed reads and Info; plus the 208 padded conformance binaries; TLC judges every report against the logical content."),
  ("C12", "model_checking", T_L, "6 C12", "All legal arrangements of all subsets of the summary groups and all data layouts (chunk partitions, compressions, definition placement) enumerated by TLC, built by the reference encoder and read by every Go read path; TLC judges content and index-based reads per layout; the summary-pass model is checked order-independent (the pre-fix pass is kept as a violated witness)."),
  ("C17", "model_checking", T_C, "6 C17", "All 416 vectors: reference binaries regenerated and hash-pinned, judged by the TLA+ format spec, read by lexer/scan and by test-read-conformance (streamed + indexed), written by test-write-conformance (208 non-padded, byte-identical), tool outputs judged by the same spec."),
